@@ -143,6 +143,9 @@ def as_is_loss(model_snap, twin_snap):
             if k in b and k in a and a[k] != b[k]:
                 out.append('as_is.' + k)
         elif a.get(k) != b.get(k):
+            va, vb = a.get(k), b.get(k)
+            if isinstance(va, float) and isinstance(vb, float) and va != va and vb != vb:
+                continue
             out.append('as_is.' + k)
     return out
 
@@ -157,6 +160,9 @@ def diff(a, b, prefix=''):
             else:
                 out.extend(diff(a[k], b[k], prefix + str(k) + '.'))
     elif a != b:
+        # (a search that diverged yields NaN costs on both sides: NaN is the same observation)
+        if isinstance(a, float) and isinstance(b, float) and a != a and b != b:
+            return out
         out.append(prefix.rstrip('.'))
     return out
 
